@@ -4,7 +4,7 @@ from copy import deepcopy
 from collections import OrderedDict
 from typing import Union
 
-from typedpy.commons import Constant, default_factories, first_in, wrap_val
+from typedpy.commons import Constant, default_factories, first_in
 from typedpy.fields import (
     FunctionCall,
     Map,
@@ -290,7 +290,7 @@ def _handle_schema_default_to_code(params_list, schema):
         if isinstance(default_val, (list, dict)):
             default_val = f"lambda: {default_val}"
         else:
-            default_val = wrap_val(default_val)
+            default_val = repr(default_val)
         params_list.append(("default", default_val))
 
 
@@ -598,7 +598,7 @@ class StringMapper(Mapper):
         params = {
             "minLength": schema.get("minLength", None),
             "maxLength": schema.get("maxLength", None),
-            "pattern": wrap_val(schema.get("pattern", None)),
+            "pattern": repr(schema["pattern"]) if "pattern" in schema else None,
         }
         return list((k, v) for k, v in params.items() if v is not None)
 
